@@ -101,3 +101,18 @@ Definition contains1 (s : spec) (c : list Z) : bool :=
 (* comma = AND; the empty list accepts everything *)
 Definition contains (l : list spec) (c : list Z) : bool :=
   forallb (fun s => contains1 s c) l.
+
+(* ---------------------------------------------------------------- a witness of non-emptiness *)
+Fixpoint bump_last (r : list Z) : list Z :=
+  match r with [] => [1] | [x] => [x + 1] | x :: t => x :: bump_last t end.
+
+Definition spec_near (s : spec) : list (list Z) :=
+  let r := pv_release (sp_ver s) in
+  [ r; r ++ [0]; r ++ [1]; bump_last r; bump_last (removelast r) ].
+
+Definition nonzero (r : list Z) : bool := negb (forallb (fun x => x =? 0) r) && negb (match r with [] => true | _ => false end).
+
+Definition spec_candidates (l : list spec) : list (list Z) :=
+  filter nonzero ([1] :: [0; 0; 1] :: flat_map spec_near l).
+
+Definition spec_witness (l : list spec) : option (list Z) := find (fun v => contains l v) (spec_candidates l).
